@@ -64,6 +64,9 @@ theorem oneShot_once_never_early' {s : State} (h : Inv s) (τ : Timer) (hτ : τ
     | cancelled => simp [b hr]
     | ok => simp [c hr]
     | err => simp [(d hr).1]
+    | panicked =>
+      have := ((h.tinv τ hτ).panic hr).1
+      rw [this] at hk; simp [Kind.oneShot] at hk
   refine ⟨hlen, ?_⟩
   intro t ht
   obtain ⟨j, hj, rfl⟩ := List.getElem_of_mem ht
@@ -73,7 +76,7 @@ theorem oneShot_once_never_early' {s : State} (h : Inv s) (τ : Timer) (hτ : τ
 
 theorem sendAfter_fires' {s : State} (h : Inv s) (i : Nat) (τ : Timer) (a : Nat)
     (hi : s.timers[i]? = some τ) (hk : τ.kind = .sendAfter) (hp : τ.res = .pending)
-    (ha : τ.armed = some a) (hd : wheelDeadline a τ.period ≤ s.now) :
+    (ha : τ.armed = some a) (hd : wheelDeadline a τ.period ≤ s.now) (hty : τ.typed = true) :
     ∃ τ', (step s (.fire i)).timers[i]? = some τ' ∧ τ'.sentAt = [s.now] ∧
       (s.target.accepts = true → τ'.res = .ok ∧ (step s (.fire i)).target.mbox = s.target.mbox ++ [(i, 1)]) ∧
       (s.target.accepts = false → τ'.res = .err ∧ (step s (.fire i)).target.mbox = s.target.mbox) := by
@@ -88,7 +91,7 @@ theorem sendAfter_fires' {s : State} (h : Inv s) (i : Nat) (τ : Timer) (a : Nat
     unfold fireOne
     simp only [hp, ne_eq, not_true_eq_false, ↓reduceIte, harm, ha, Option.getD_some]
     unfold fireArmed
-    simp [hk, hdl, hs]
+    simp [hk, hdl, hs, Timer.canSend, hty]
   rw [hf]
   cases hacc : s.target.accepts with
   | true =>
@@ -102,11 +105,15 @@ theorem frozen_step (s : State) (i : Nat) (τ : Timer) (hi : s.timers[i]? = some
     (hf : τ.res ≠ .pending) (op : Op) : (step s op).timers[i]? = some τ := by
   cases op with
   | create k p =>
-    have e : step s (.create k p) = if k = .interval ∧ p = 0 then s
-        else { s with timers := s.timers ++ [{ kind := k, period := p, created := s.now }] } := rfl
-    rw [e]; split
-    · exact hi
-    · simp only [List.getElem?_append_left (getElem?_lt hi)]; exact hi
+    have e : step s (.create k p) =
+        { s with timers := s.timers ++ [{ kind := k, period := p, created := s.now }] } := rfl
+    rw [e]
+    simp only [List.getElem?_append_left (getElem?_lt hi)]; exact hi
+  | createX k p =>
+    have e : step s (.createX k p) =
+        { s with timers := s.timers ++ [{ kind := k, period := p, created := s.now, typed := false }] } := rfl
+    rw [e]
+    simp only [List.getElem?_append_left (getElem?_lt hi)]; exact hi
   | tick d => exact hi
   | fire j =>
     cases hτ : s.timers[j]? with
@@ -138,6 +145,10 @@ theorem frozen_step (s : State) (i : Nat) (τ : Timer) (hi : s.timers[i]? = some
   | mark => exact hi
   | hold => exact hi
   | psrelease => exact hi
+  | dropHandle j => exact hi
+  | fail => exact hi
+  | startHold => exact hi
+  | started => exact hi
 
 theorem finished_frozen' (s : State) (i : Nat) (τ : Timer) (hi : s.timers[i]? = some τ)
     (hf : τ.res ≠ .pending) (ops : List Op) : (steps s ops).timers[i]? = some τ := by
@@ -177,8 +188,8 @@ theorem interval_dies' {s : State} (h : BInv s) (τ : Timer) (hτ : τ ∈ s.tim
     (τ.sentAt.filter (fun t => decide (tc < t))).length ≤ 1 := by
   refine ⟨?_, ((h.inv.tinv τ hτ).closed tc hc (by simp [hk, Kind.sends])).2⟩
   intro hle hle2 hp
-  have := h.okPrompt
-  unfold Timers.okPrompt at this
+  have := h.okPrompt1
+  unfold Timers.okPrompt1 at this
   rw [List.all_eq_true] at this
   have := this τ hτ
   unfold timerPromptOk diesOk at this
@@ -209,9 +220,14 @@ theorem exit_reason' {s : State} (h : Inv s) (r : Reason) (te : Nat) (he : s.tar
   · intro e; subst e; exact hr
 
 theorem handle_reports_send' {s : State} (h : Inv s) (τ : Timer) (hτ : τ ∈ s.timers)
-    (hk : τ.kind = .sendAfter) :
+    (hk : τ.kind = .sendAfter) (hty : τ.typed = true) :
     (τ.res = .ok → ∀ tc, s.target.closedAt = some tc → ∀ t ∈ τ.sentAt, t ≤ tc) ∧
     (τ.res = .err → ∃ tc, s.target.closedAt = some tc ∧ ∀ t ∈ τ.sentAt, tc ≤ t) :=
-  (h.tinv τ hτ).accept hk
+  (h.tinv τ hτ).accept hk hty
+
+theorem mistyped' {s : State} (h : Inv s) (τ : Timer) (hτ : τ ∈ s.timers)
+    (hty : τ.typed = false) (hs : τ.kind.sends = true) :
+    (τ.res = .pending → τ.sentAt = []) ∧ τ.sentAt.length ≤ 1 ∧ (τ.kind = .sendAfter → τ.res ≠ .ok) :=
+  (h.tinv τ hτ).untyped hty hs
 
 end Timers
